@@ -619,7 +619,7 @@ fn eval_e2e(format_name: &str, stmts: &[Sexp], vals: &[Sexp]) -> Sexp {
 impl Prop for C07 {
     fn id(&self) -> &'static str { "C07" }
     fn relation(&self) -> &'static str {
-        "pp: structure tree (loops, do-while, cond chains, breaks, surviving labels; bookends dropped) of passes::postprocess_decompiled on a flat block == Lean `Decomp.postprocess`; sem: AstVm trace (instr_log, time, real_time, registers) of the flat block and verdict `same` for desugar_blocks(reconstructed) == Lean machine `Decomp.run` on the flat block and on `Decomp.lower (postprocess ..)` (the definitions `C07_full` is stated with)"
+        "pp: structure tree (loops, do-while, cond chains, breaks, surviving labels; bookends dropped) of passes::postprocess_decompiled on a flat block == Lean `Decomp.postprocess`; sem: AstVm trace (instr_log, time, real_time, registers) of the flat block and verdict `same` for desugar_blocks(reconstructed) == Lean machine `Decomp.run` on the flat block and on `Decomp.lower (postprocess ..)` (the definitions the theorem `C07_sound_partial` is stated with)"
     }
     fn rule(&self) -> &'static str {
         "flat blocks from (a) generated structured programs (cond chains with 1-3 arms +- else, loop with break, do-while incl. count jumps, while, times with clobber; depth <= 3) through the REAL desugar_blocks::run, `unless (c)` rewritten to `if (!c)` like the compiler+raiser do, then 0-3 mutations (retarget a jump, explicit time, difficulty tag, interrupt label, extra referrer, delete, swap, time label, new label; rarely `unless`, undefined label, offsetof/timeof); (b) random jump graphs of 3-28 statements over 1-5 labels; every flat block gives a `pp` case (model vs implementation) and, when it is something the raiser can produce, a `vm` case: AstVm on the --no-blocks form vs the reconstructed form (only when time labels are monotone and no jump has an explicit time, because AstVm's block-end time rule is exact only then) and vs desugar_blocks(reconstructed) (always), 4 (quick) / 8 (thorough) valuations of difficulty + 4 int registers, iteration limit => skipped; (c) end to end: structured sources with explicit labels/gotos compiled as TH12 ANM and TH07 ECL, decompiled with blocks off/on, both texts recompiled (must reproduce the bytes) and run in AstVm. non-trivial = contains at least one jump"
@@ -628,7 +628,9 @@ impl Prop for C07 {
         &["TruthModel.C07.postprocess_observation", "TruthModel.C07.time_labels_preserved", "TruthModel.C07.timed_jumps_untouched",
           "TruthModel.C07.difficulty_tagged_jumps_untouched", "TruthModel.C07.difficulty_tagged_jumps_kept",
           "TruthModel.C07.labels_not_duplicated", "TruthModel.C07.labels_with_referrers_survive",
-          "TruthModel.C07.interrupts_not_captured", "TruthModel.C07.desugar_postprocess_partial"]
+          "TruthModel.C07.interrupts_not_captured", "TruthModel.C07.desugar_postprocess_partial",
+          "TruthModel.C07.postprocess_resolved", "TruthModel.C07.C07_sound_partial", "TruthModel.C07.nobreak_necessary",
+          "TruthModel.C07.nonneg_time_necessary", "TruthModel.C07.C07_full_false"]
     }
 
     fn gen(&self, tier: Tier, rng: &mut Rng) -> Vec<Case> {
